@@ -48,6 +48,7 @@ Local Arguments put_bundler {P D}.
 Local Arguments any_bundling {P D}.
 Local Arguments add_status {P D}.
 Local Arguments request_pause {P D}.
+Local Arguments request_pause_in_task {P D}.
 Local Arguments finish_read {P D}.
 Local Arguments mark_cached {P D}.
 Local Arguments exec_cmd {P D}.
@@ -245,6 +246,13 @@ Proof.
   repeat bm_hyp H; inversion H; subst; clear H; use_U; u_close.
 Qed.
 
+Lemma request_pause_in_task_U (s : st) d s' e o : request_pause_in_task s d = (s', e, o) -> U s s' o.
+Proof.
+  unfold request_pause_in_task. destruct (request_pause s d) as [[s1 e1] o1] eqn:E.
+  apply request_pause_U in E. intros H; inversion H; subst; clear H.
+  unfold U in *. destruct (resumable s); [exact E | cbn in *; exact E].
+Qed.
+
 Lemma rewind_U (s : st) s' l : rewind s = (s', l) -> U s s' [].
 Proof. unfold rewind. intros H. repeat bm_hyp H; inversion H; subst; apply U_pure; reflexivity. Qed.
 
@@ -253,7 +261,7 @@ Ltac unfold_pure := unfold reset_checkpoint, put_bundler, get_bundler, map_bundl
 Lemma exec_cmd_U (s : st) m s' c o : exec_cmd dev s m = (s', c, o) -> U s s' o.
 Proof.
   unfold exec_cmd. intros H. destruct (mcmd m) eqn:Em.
-  6: { destruct (request_pause s defer) as [[s1 e] o1] eqn:E. inversion H; subst. eapply request_pause_U; eassumption. }
+  6: { destruct (request_pause_in_task s defer) as [[s1 e] o1] eqn:E. inversion H; subst. eapply request_pause_in_task_U; eassumption. }
   20: { destruct (call_pausables dev s MResume) as [[s1 e] o1] eqn:E. inversion H; subst. eapply call_pausables_U; eassumption. }
   all: unfold dcall, finish_read in H.
   all: repeat bm_hyp H; inversion H; subst; clear H; norm_hyps; unfold_pure; u_close.
